@@ -188,7 +188,7 @@ func init() {
 			default:
 				target = starts[r.Intn(len(starts))]
 			}
-			budget := []int{0, 1, 2, 3, 5, 8, 13, 40, 100}[r.Intn(9)]
+			budget := []int{0, 1, 2, 3, 5, 8, 13, 40, 100, 300, 700}[r.Intn(11)]
 			if r.Intn(4) == 0 {
 				budget = r.Intn(60)
 			}
